@@ -2,6 +2,7 @@
 //! observation (a list of fields, each a list of numbers) per case.  See DESIGN.md section 4.2.
 mod util;
 mod hcobs_fam;
+mod iovw;
 mod readn;
 mod sdq;
 mod sod;
@@ -36,6 +37,7 @@ fn main() {
         }
         let obs: util::Obs = match family {
             "win" => win::run(line),
+            "iovw" => iovw::run(line),
             "chunk" => stream::run_chunk(line),
             "reader" => stream::run_reader(line),
             "hcobs" => hcobs_fam::run(line),
